@@ -123,6 +123,10 @@ def run(rep, tier):
                 rep.add(Finding(rule, f'{rel}:visit', '', msg, f'{rel} ({what})'))
         rep.obligations += 3
         rep.discharged += 3 - len({r for r, _ in found if r in ('DRIVER-exits', 'FINALIZE-exits', 'TABLE-index')})
+    # C.parse(args)(text, pos, fullparse): the entry closure binds text/pos/fullparse itself - a class parameter
+    # of that name must be captured outside it, or the class is matched with the input / offset as its argument
+    from . import shared
+    shared.entry_closure_rule(rep)
     rep.count('finalize/driver obligations', n)
     rep.floor('runtime copies analysed', rep.instances.get('runtime copies analysed', 0), 3)
     from .. import controls
